@@ -64,8 +64,8 @@ theorem C06_net_accept_token (n : N) (l : Nat) (rest : List Nat) :
 /-- **C06_net_no_use_after_free.** With the patches no TcpConnection is deleted while its own
 callback is executing and no deleted retry timer is dereferenced, whatever the callbacks do
 (stop() from a disconnected callback, stop() from a connect-fail callback, …). -/
-theorem C06_net_no_use_after_free (ops : List Op) : (run { fix := true } init ops).uaf = false :=
-  (UI_run { fix := true } rfl ops init init_UI).uaf
+theorem C06_net_no_use_after_free (ops : List Op) : (run {} init ops).uaf = false :=
+  (UI_run {} ⟨rfl, rfl, rfl⟩ ops init init_UI).uaf
 
 /-- **C06_net_server_stop_counterexample.** The code as found: `TcpServer::stop()` called from the
 disconnected callback of a connection deletes that TcpConnection while it is executing the callback
@@ -148,17 +148,17 @@ theorem C06_net_server_quiet (cfg : Cfg) (n : N) (m : Msg) (ht : n.sv.table = []
 exists exactly while it is Connecting and its retry timer exactly while it is in Delay — so at
 most one connect attempt or retry is in flight, and none when it is idle. -/
 theorem C06_net_one_attempt (ops : List Op) (w : Who) :
-    let c := (run { fix := true } init ops).cn w
+    let c := (run {} init ops).cn w
     (c.pend.isSome ↔ c.st = .connecting) ∧ (c.deadline.isSome ↔ c.st = .delay) :=
-  (UI_run { fix := true } rfl ops init init_UI).cn w
+  (UI_run {} ⟨rfl, rfl, rfl⟩ ops init init_UI).cn w
 
 /-- **C06_net_stop_cancels.** After `TcpConnector::stop()` nothing is in flight: no write event, no
 retry timer (so neither the connected nor the failure callback can follow). -/
 theorem C06_net_stop_cancels (ops : List Op) (w : Who) :
-    let n := cnStop (run { fix := true } init ops) w
+    let n := cnStop (run {} init ops) w
     (n.cn w).pend = none ∧ (n.cn w).deadline = none := by
-  have h := UI_cnStop _ w (UI_run { fix := true } rfl ops init init_UI)
-  have hid := cnStop_idle (run { fix := true } init ops) w
+  have h := UI_cnStop _ w (UI_run {} ⟨rfl, rfl, rfl⟩ ops init init_UI)
+  have hid := cnStop_idle (run {} init ops) w
   exact (h.cn w).idle hid.1 hid.2
 
 /-! ## non-vacuity / examples -/
@@ -166,7 +166,7 @@ theorem C06_net_stop_cancels (ops : List Op) (w : Who) :
 /-- stop() from the disconnected callback, patched: one disconnected, the server is stopped, the
 connection object is freed once -/
 example :
-    let n := run { fix := true } init [.svInit, .svStart, .clInit 0, .clRec 0 false, .clStart 0,
+    let n := run {} init [.svInit, .svStart, .clInit 0, .clRec 0 false, .clStart 0,
                                        .svScript 1 [.stop], .clStop 0]
     n.uaf = false ∧ svTrace n.hist 0 = [.connected, .disconnected] ∧ n.sv.st = .inited ∧
     n.freed = [(0, false), (0, true)] ∧ n.alive = [] := by decide
@@ -174,14 +174,14 @@ example :
 /-- auto-reconnect: the server stops, the client is told once and connects again (into the backlog);
 after the next start the server sees a new token -/
 example :
-    let n := run { fix := true } init [.svInit, .svStart, .clInit 0, .clStart 0, .svStop, .svStart]
+    let n := run {} init [.svInit, .svStart, .clInit 0, .clStart 0, .svStop, .svStart]
     clTrace n.hist 0 0 = [.connected, .disconnected] ∧ clTrace n.hist 0 1 = [.connected] ∧
     n.sv.table = [(1, 1)] ∧ n.c0.st = .connected := by decide
 
 /-- no listener: the connector retries by timer, stop() cancels the retry -/
 example :
-    let n1 := run { fix := true } init [.clInit 0, .clStart 0]
-    let n2 := run { fix := true } init [.clInit 0, .clStart 0, .adv 1000, .clStop 0, .adv 5000]
+    let n1 := run {} init [.clInit 0, .clStart 0]
+    let n2 := run {} init [.clInit 0, .clStart 0, .adv 1000, .clStop 0, .adv 5000]
     n1.c0.cn.st = .delay ∧ n1.c0.cn.deadline = some 1000 ∧ n2.c0.st = .inited ∧ n2.c0.cn.deadline = none ∧
     n2.hist = [.clStart 0, .clStop 0] := by decide
 
